@@ -1360,19 +1360,19 @@ func marshalDate(info TypeInfo, value interface{}) ([]byte, error) {
 		return nil, nil
 	case int64:
 		timestamp = v
-		return encDate(timestamp), nil
+		return encDate(timestamp)
 	case time.Time:
 		if v.IsZero() {
 			return []byte{}, nil
 		}
 		timestamp = int64(v.UTC().Unix()*1e3) + int64(v.UTC().Nanosecond()/1e6)
-		return encDate(timestamp), nil
+		return encDate(timestamp)
 	case *time.Time:
 		if v.IsZero() {
 			return []byte{}, nil
 		}
 		timestamp = int64(v.UTC().Unix()*1e3) + int64(v.UTC().Nanosecond()/1e6)
-		return encDate(timestamp), nil
+		return encDate(timestamp)
 	case string:
 		if v == "" {
 			return []byte{}, nil
@@ -1382,7 +1382,7 @@ func marshalDate(info TypeInfo, value interface{}) ([]byte, error) {
 			return nil, marshalErrorf("can not marshal %T into %s, date layout must be '2006-01-02'", value, info)
 		}
 		timestamp = int64(t.UTC().Unix()*1e3) + int64(t.UTC().Nanosecond()/1e6)
-		return encDate(timestamp), nil
+		return encDate(timestamp)
 	}
 
 	if value == nil {
@@ -1394,13 +1394,16 @@ func marshalDate(info TypeInfo, value interface{}) ([]byte, error) {
 // encDate encodes a timestamp in milliseconds since the Unix epoch as a CQL
 // date: the number of days since the epoch, counted with floor so that a time
 // before 1970 falls on its own day, as an unsigned integer centred on 2^31.
-func encDate(timestamp int64) []byte {
+func encDate(timestamp int64) ([]byte, error) {
 	days := timestamp / millisecondsInADay
 	if timestamp%millisecondsInADay < 0 {
 		days--
 	}
 	x := days + int64(1<<31)
-	return encInt(int32(x))
+	if x < 0 || x > math.MaxUint32 {
+		return nil, marshalErrorf("marshal date: %d milliseconds since the epoch is out of range", timestamp)
+	}
+	return encInt(int32(uint32(x))), nil
 }
 
 func unmarshalDate(info TypeInfo, data []byte, value interface{}) error {
